@@ -9,14 +9,14 @@ o = json.load(open(sys.argv[1]))
 pid = o["property"]
 g = Grammar.from_json(o["grammar"])
 cfgs = [o["config"]] if "config" in o else sem.ALL_CONFIGS
-ci = sem.CaseInfo(0, g, o.get("strict", 1), o["input"], cfgs, o.get("gname", ""))
+ci = sem.CaseInfo(o.get("cid", 0), g, o.get("strict", 1), o["input"], cfgs, o.get("gname", ""))
 tr = sem.run_cases(o.get("variant", "asan"), [ci], None)
 sh = sem.Shard()
 ref = oracle.Ref(g)
 if pid in recx.JUDGES:
-    recx.JUDGES[pid](sh, ci, tr[0], ref, {})
+    recx.JUDGES[pid](sh, ci, tr[ci.cid], ref, {})
 elif pid in semx.JUDGES:
-    semx.JUDGES[pid](sh, ci, tr[0], ref, {})
+    semx.JUDGES[pid](sh, ci, tr[ci.cid], ref, {})
 elif pid == "C01":
-    c01.judge(sh, ci, tr[0], ref)
+    c01.judge(sh, ci, tr[ci.cid], ref)
 print(json.dumps({"violations": [(k, t[:300]) for k, t, r in sh.viol], "inconclusive": sh.inconclusive, "counters": sh.counters}, indent=1))
